@@ -219,6 +219,33 @@ def chain_facts(r):
         j, cp = parent[i]
         segs.insert(0, (procs[j]["start"]["m0"], cp["meta"]["calls"] - procs[j]["start"]["m0"]))
         i = j
+    # timing: within one process the sampler cannot have accumulated more sampling time than the process has spent
+    # inside run() (a larger increment means an interval counted twice or the time between kill and resume counted),
+    # a resumed process starts from the time its checkpoint recorded, and the reported time never decreases
+    for i, p in enumerate(procs):
+        st = p["start"]
+        if st is None or "sampling_time" not in st:
+            continue
+        marks = [c["meta"] for c in p["checkpoints"]] + ([p["end"]["meta"]] if p.get("end") else [])
+        prev = st["sampling_time"]
+        for m in marks:
+            if "sampling_time" not in m:
+                continue
+            inc = m["sampling_time"] - st["sampling_time"]
+            if inc > m.get("wall_in_run", 0.0) * 1.05 + 0.5:
+                problems.append(("sampling-time-inflated",
+                                 f"process {i} ({'resumed' if st['resumed'] else 'fresh'}): sampling time grew by {inc:.2f} s by "
+                                 f"iteration {m['iteration']} although only {m.get('wall_in_run', 0.0):.2f} s had been spent inside run()"))
+                break
+            if m["sampling_time"] < prev - 1e-6:
+                problems.append(("sampling-time-reset", f"process {i}: sampling time went from {prev:.2f} s to {m['sampling_time']:.2f} s"))
+                break
+            prev = m["sampling_time"]
+        if st["resumed"] and parent.get(i) is not None:
+            cp = parent[i][1]["meta"]
+            if "sampling_time" in cp and abs(cp["sampling_time"] - st["sampling_time"]) > 1e-6:
+                problems.append(("sampling-time-not-restored",
+                                 f"process {i} resumed with sampling time {st['sampling_time']:.3f} s, the checkpoint recorded {cp['sampling_time']:.3f} s"))
     return segs, procs[last]["end"], problems
 
 
